@@ -72,6 +72,10 @@ void ref_decode(const uint8_t* b, size_t n, size_t L, uint64_t alloc_cap, void (
 /* returns encoded length, or 0 if the tree is outside the property's domain (simple 24..31,
  * half item holding a non-half value, tag without item) ; writes at most cap bytes */
 size_t ref_encode(const rnode* t, uint8_t* out, size_t cap);
+/* with ref_lossy_half_ok set, a half-width float item whose value no half represents is encoded as 3 placeholder bytes (only the size
+ * is meaningful) and counted in ref_lossy_halves, instead of putting the tree outside the domain */
+extern bool ref_lossy_half_ok;
+extern unsigned ref_lossy_halves;
 size_t ref_encoded_size(const rnode* t);
 /* one head: major type mt, argument v, force_w = 0 (shortest) | 8 (immediate up to 23, else one byte) | 16 | 32 | 64 | -1 (immediate); returns its length */
 size_t ref_put_head(uint8_t* out, size_t cap, size_t o, uint8_t mt, uint64_t v, int force_w);
